@@ -110,6 +110,14 @@ func c13Model(active, inactive time.Duration, maxRetries int, minExpiry time.Dur
 			case "recbad":
 				// refused, and nothing of it stays behind
 				return out.Err != "", ns
+			case "resetall":
+				if out.Err != "" {
+					return false, ns
+				}
+				for _, k := range m.sortedKeys() {
+					m.reset(k)
+				}
+				return true, ns
 			case "get":
 				f := m.Flows[in.Key]
 				if (f != nil) != out.Present {
@@ -233,6 +241,8 @@ func c13Model(active, inactive time.Duration, maxRetries int, minExpiry time.Dur
 				return fmt.Sprintf("num->%d", out.Num)
 			case "recbad":
 				return fmt.Sprintf("recbad(key=%d)->err=%v", in.Rec.Key, out.Err != "")
+			case "resetall":
+				return "resetall"
 			case "getall":
 				var ks []int
 				for _, c := range out.All {
@@ -356,8 +366,11 @@ func genC13(seed uint64, tier string) *plan.Plan {
 			case x < 17:
 				// list query: no key, or a partial key
 				pl.Ops = append(pl.Ops, plan.Op{K: "getall", T: t, A: int64(r.IntN(nk+2) - 2)})
-			case x < 19:
+			case x < 18:
 				pl.Ops = append(pl.Ops, plan.Op{K: "num", T: t})
+			case x < 19:
+				// walk over all records with a callback that resets each of them
+				pl.Ops = append(pl.Ops, plan.Op{K: "resetall", T: t})
 			default:
 				pl.Ops = append(pl.Ops, plan.Op{K: "expiry", T: t})
 			}
@@ -572,6 +585,16 @@ func runC13(pl *plan.Plan, out *plan.Outcome) {
 			}
 			env.Count("agg.records", 1)
 			record(t, c13Input{Kind: "rec", Rec: r, Now: now}, call, o)
+		case "resetall":
+			err := s.ap.ForAllRecordsDo(func(key intermediate.FlowKey, rec *intermediate.AggregationFlowRecord) error {
+				return s.ap.ResetStatAndThroughputElementsInRecord(rec.Record)
+			})
+			o := c13Output{}
+			if err != nil {
+				o.Err = err.Error()
+			}
+			env.Count("agg.reset_walks", 1)
+			record(t, c13Input{Kind: "resetall", Now: now}, call, o)
 		case "recbad":
 			r := s.recOf(op)
 			if r.Key != len(s.keyCat)-1 || op.X == "" {
@@ -840,7 +863,7 @@ func runC13Pool(env *Env, s *aggSession, ops []plan.Op, history *[]porcupine.Ope
 		sort.Slice(hs, func(i, j int) bool { return hs[i].Call < hs[j].Call })
 		for _, h := range hs {
 			in := h.Input.(c13Input)
-			if in.Kind == "scan" {
+			if in.Kind == "scan" || in.Kind == "resetall" {
 				return // exports / resets in earlier phases: the pool member is skipped
 			}
 			if in.Kind == "rec" {
